@@ -5,6 +5,46 @@ HERE = os.path.dirname(os.path.abspath(__file__))
 BASE = "cd /repo && /venv/bin/python -m pytest -ra -q -p no:cacheprovider --timeout=900 --continue-on-collection-errors"
 
 CHECKS = {
+ "C06": dict(level="exploration", engine="I",
+   technique="bounded-exhaustive enumeration of kernel-formatted inputs rendered by an independent simulated kernel, real parser code, reference decoder",
+   text="Every process/thread name that is a string of <= 3 (thorough 4) tokens over an alphabet containing the parsers' own delimiters ('(' ')' blank newline tab backslash non-UTF-8, 2-byte UTF-8, 'Uid:\\t7\\t7\\t7', 'Gid:...', 'Threads:...', ') S 1 ') within 15 bytes, 15-byte truncations, every boundary value of each numeric stat/status field, every state letter, short (44/41-field) records and 1-3 threads with their own names are rendered into stat/status/task files exactly as fs/proc/array.c does and queried through 12 Process methods; the oracle is the abstract facts the record was rendered from.",
+   note='simk renders the name raw in stat and escapes only \\n and \\\\ in status (kernel behaviour); unmapped state letters are not judged.',
+   ref="DESIGN.md §4 C06"),
+ "C07": dict(level="exploration", engine="I",
+   technique="bounded-exhaustive enumeration of kernel-formatted inputs rendered by an independent simulated kernel, real parser code, reference decoder",
+   text='cpu_times (1-3 CPUs x 7-10 fields x boundary counters); every pair of snapshots whose per-field tick deltas form the complete {0,1,50} product (7-10 fields) or any pair of fields over {-5,0,1,7,50,10^6}, under the kernel invariant guest<=user, through cpu_percent and cpu_times_percent in blocking (virtual sleep) and non-blocking, system-wide and per-CPU forms; Process.cpu_percent over all blocking/non-blocking 3-call sequences on (dproc,dwall) grids with 1 and 16 CPUs and negative intervals.',
+   note='Shares are compared with the exact quotient within 0.05 (one decimal); 100 ticks/s; virtual clock. Thread-keyed previous samples (schedules) are not yet explored.',
+   ref="DESIGN.md §4 C07"),
+ "C08": dict(level="exploration", engine="I",
+   technique="bounded-exhaustive enumeration of kernel-formatted inputs rendered by an independent simulated kernel, real parser code, reference decoder",
+   text='All 2^14 subsets of the optional /proc/meminfo keys for 3 (thorough 6) value regimes (normal, container-distorted cached+buffers>total and available>total, MemAvailable=0, total=0, free>total, below the low watermark) plus zoneinfo {absent,1,3 zones,huge} and vmstat {both,absent,one,neither,reversed} variants; every field, the used/available clamps, percent, the fallback estimate (re-implemented from kernel commit 34e431b0ae) and the set of metric names in the RuntimeWarning are compared with a reference written from the statement.',
+   note='When the estimate falls outside [0,total] any clamped value inside [0,total] is accepted.',
+   ref="DESIGN.md §4 C08"),
+ "C09": dict(level="exploration", engine="I",
+   technique="bounded-exhaustive enumeration of kernel-formatted inputs rendered by an independent simulated kernel, real parser code, reference decoder",
+   text="/proc/net/dev with 0-3 interfaces (names with ':' '.' 15 chars) and every counter column at every boundary; /proc/diskstats in all five line layouts (14/18/20/7/15 fields) x all sets of <= 2 (thorough 4) devices from 14 names whose whole-disk status is given by /sys/block (incl. prefix-sharing names sda/sdaa, loop1/loop10, md1/md10, cciss/c0d0) with distinct prime-scaled columns; per-device, totals and empty conventions; disk_usage over a 5^3 statvfs grid x (frsize,bsize) pairs.",
+   note="15-field (2.4) layout: psutil's in-code description is the only specification available.",
+   ref="DESIGN.md §4 C09"),
+ "C11": dict(level="exploration", engine="I",
+   technique="bounded-exhaustive enumeration of kernel-formatted inputs rendered by an independent simulated kernel, real parser code, reference decoder + fd-closing fault enumeration",
+   text='Socket tables rendered from network-order address bytes: every (local, remote) address x port combination for tcp/udp/tcp6/udp6, all 11 TCP states, UNIX sockets of 3 types x 6 paths (none, abstract, with space, with colon, non-ASCII) x 5 holder sets (none, one, two fds, two processes), all multisets of <= 2 (thorough 3) sockets from a 6-entry menu x all 11 kinds, IPv6 tables absent, 8 invalid kinds; system-wide and per-process forms; plus every descriptor closing before every access of the fd scan.',
+   note='Rows compared as sets; a shared inet socket may be attributed to any of its holders; newline in a UNIX path is outside the alphabet.',
+   ref="DESIGN.md §4 C11"),
+ "C12": dict(level="exploration", engine="I",
+   technique="bounded-exhaustive enumeration of kernel-formatted inputs rendered by an independent simulated kernel, real parser code, reference decoder",
+   text="All argv lists of <= 2 (thorough 3) items over {'', a, 'a b', /bin/x, \\xff, -c} in the three kernel layouts (NUL-separated, title overwritten with blanks, blanks + trailing NUL), zombie; all environment blocks of <= 3 (4) entries over 8 entry shapes incl. duplicates, '=' in values, missing '=', empty entry + trailing garbage; exe/cwd link targets (plain, ' (deleted)' with/without the suffixed file existing, NUL garbage, with blank, withheld) x state (ok, denied, gone) x 7 cmdlines for the exe fallback incl. cache check; (comm, argv[0]) pairs for 14/15-byte names x state.",
+   note="A single NUL-terminated argument containing a blank is indistinguishable from an overwritten title (documented split expected); '=v' may be reported or ignored.",
+   ref="DESIGN.md §4 C12"),
+ "C13": dict(level="exploration", engine="I",
+   technique="bounded-exhaustive enumeration of kernel-formatted inputs rendered by an independent simulated kernel, real parser code, reference decoder",
+   text="statm boundary values; all lists of <= 2 (thorough 3) mappings over 9 paths (none, repeated path, blank, colon, ' (deleted)' stale and literal, [heap], non-UTF-8) x 3 roll-up modes (smaps_rollup present, ENOENT fallback, kernel without roll-up); all subsets of 6 optional smaps lines; figures up to tens of TB; memory_percent for every field and 7 invalid names x 3 totals; reference = sums over the mapping list.",
+   note='smaps rendered like fs/proc/task_mmu.c; roll-up = field-wise sums.',
+   ref="DESIGN.md §4 C13"),
+ "C14": dict(level="exploration", engine="I",
+   technique="bounded-exhaustive enumeration of kernel-formatted inputs rendered by an independent simulated kernel, real parser code, reference decoder + fd-closing fault enumeration",
+   text="One descriptor x all 256 flag words (4 access modes x 6 flag bits), each descriptor kind x boundary offsets, all tables of <= 3 (4) descriptors over 9-10 kinds (regular, deleted, '(deleted)' stale/literal, socket, pipe, anon inode, device, relative, directory); /proc/<pid>/io with blank/garbage/unknown/double-separator lines at every position and permuted order; every descriptor closing before every access of the scan (singles and pairs).",
+   note="Access mode 3: any of the five mode strings accepted, failure is not; 'X (deleted)' where only X exists: psutil's documented heuristic accepted.",
+   ref="DESIGN.md §4 C14"),
  "C10": dict(level="model_checking", engine="H",
    technique="explicit-state BFS over raw-counter histories through the public functions (real code over a simulated kernel) against a reference accumulator; non-initial root states",
    text="All histories (depth 6-7 per function, 4-5 for both functions interleaved, also started from states that already carry a wrap reminder) of raw counter changes including decreases, devices unplugged/re-plugged (two pluggable NICs, a disk and a partition), cache_clear(), and calls with every nowrap x per-device combination; every returned value is compared with a reference accumulator (raw + sum of previous values at each decrease since (re)appearance/clear), totals with the field-wise sum, and monotonicity is checked independently of the reference.",
